@@ -470,3 +470,57 @@ axiom('mscatter.where.out', forall([A_, m_, B_, i_],
                                    z3.Implies(z3.And(0 <= i_, i_ < mrows(A_), T.blen(m_) == mrows(A_), z3.Not(T.bat(m_, i_))),
                                               mrow(mscatter(A_, where(m_), B_), i_) == mrow(A_, i_)),
                                    [mrow(mscatter(A_, where(m_), B_), i_)]), ['mscatter'], 'numpy')
+
+
+# ---- integer arrays used by the partition of query rows
+ifull = F('ifull', Int, Int, ISeq)                 # np.full(n, q, dtype=int)
+iaddprefix = F('iaddprefix', ISeq, Int, Int, ISeq)   # u[:k] += c
+icumsum = F('icumsum', ISeq, ISeq)
+icons = F('icons', Int, ISeq, ISeq)
+isum = F('isum', ISeq, Int)
+n_, q_, c_ = z3.Ints('n q c')
+axiom('ifull.len', forall([n_, q_], z3.Implies(n_ >= 0, ilen(ifull(n_, q_)) == n_), [ifull(n_, q_)]), ['ifull'], 'numpy')
+axiom('ifull.at', forall([n_, q_, i_], iat(ifull(n_, q_), i_) == q_, [iat(ifull(n_, q_), i_)]), ['ifull'], 'numpy')
+axiom('iaddprefix.len', forall([u_, k_, c_], ilen(iaddprefix(u_, k_, c_)) == ilen(u_), [iaddprefix(u_, k_, c_)]),
+      ['iaddprefix'], 'numpy')
+axiom('iaddprefix.at', forall([u_, k_, c_, i_], iat(iaddprefix(u_, k_, c_), i_) ==
+                              iat(u_, i_) + z3.If(z3.And(0 <= i_, i_ < k_), c_, 0), [iat(iaddprefix(u_, k_, c_), i_)]),
+      ['iaddprefix'], 'numpy')
+axiom('icumsum.len', forall([u_], ilen(icumsum(u_)) == ilen(u_), [icumsum(u_)]), ['icumsum'], 'numpy')
+# running sums: first element, and the step  cumsum[i+1] = cumsum[i] + u[i+1]   (np.cumsum, A4)
+axiom('icumsum.first', forall([u_], z3.Implies(ilen(u_) > 0, iat(icumsum(u_), 0) == iat(u_, 0)), [icumsum(u_)]),
+      ['icumsum'], 'numpy')
+axiom('icumsum.step', forall([u_, i_], z3.Implies(z3.And(0 <= i_, i_ + 1 < ilen(u_)),
+                                                  iat(icumsum(u_), i_ + 1) == iat(icumsum(u_), i_) + iat(u_, i_ + 1)),
+                             [iat(icumsum(u_), i_ + 1)]), ['icumsum'], 'numpy')
+# closed form of the running sums of "q everywhere, one more on the first k entries" (lemma: induction on i)
+axiom('icumsum.quota', forall([n_, q_, k_, i_], z3.Implies(z3.And(0 <= i_, i_ < n_, 0 <= k_, k_ <= n_),
+                                                          iat(icumsum(iaddprefix(ifull(n_, q_), k_, 1)), i_) ==
+                                                          (i_ + 1) * q_ + z3.If(i_ + 1 <= k_, i_ + 1, k_)),
+                              [iat(icumsum(iaddprefix(ifull(n_, q_), k_, 1)), i_)]), ['icumsum'], 'lemma')
+axiom('isum.last', forall([u_], z3.Implies(ilen(u_) > 0, isum(u_) == iat(icumsum(u_), ilen(u_) - 1)), [isum(u_)]),
+      ['isum'], 'lemma')
+axiom('icons.len', forall([c_, u_], ilen(icons(c_, u_)) == ilen(u_) + 1, [icons(c_, u_)]), ['icons'], 'numpy')
+axiom('icons.at', forall([c_, u_, i_], iat(icons(c_, u_), i_) == z3.If(i_ == 0, c_, iat(u_, i_ - 1)),
+                         [iat(icons(c_, u_), i_)]), ['icons'], 'numpy')
+
+
+@reg('np.full')
+def _full(lib, run, recv, args, kw):
+    return SeqV('I', ifull(intterm(args[0]), intterm(args[1])))
+
+
+@reg('np.cumsum')
+def _cumsum(lib, run, recv, args, kw):
+    a = args[0]
+    if isinstance(a, SeqV) and a.kind == 'I':
+        return SeqV('I', icumsum(a.term))
+    raise Unsupported('np.cumsum argument')
+
+
+def iseq_slice_iadd(lib, run, base, key, v):
+    """u[:k] += c on an int array"""
+    _, lo, hi, step = key
+    if lo is None and step is None and hi is not None and isinstance(v, Num):
+        return SeqV('I', iaddprefix(base.term, intterm(hi), intterm(v)))
+    raise Unsupported('slice assignment on an int array')
